@@ -210,6 +210,7 @@ struct Agg {
     notes: BTreeSet<String>,
     capped: bool,
     units_done: usize,
+    unit_ms: Vec<(u64, u64)>,
     machinery_errors: Vec<String>,
 }
 
@@ -272,6 +273,7 @@ impl Agg {
             self.capped = true;
         }
         self.units_done += 1;
+        self.unit_ms.push((j["ms"].as_u64().unwrap_or(0), j["unit"].as_u64().unwrap_or(0)));
     }
 }
 
@@ -311,9 +313,12 @@ pub fn worker_main(prop: &dyn Prop, tier: Tier) {
             let _ = writeln!(so, "{}", json!({"start": unit}));
             let _ = so.flush();
         }
+        let t_unit = Instant::now();
         prop.run_unit(tier, unit, &mut out);
+        let mut rj = out.to_json();
+        rj["ms"] = json!(t_unit.elapsed().as_millis() as u64);
         let mut so = std::io::stdout().lock();
-        let _ = writeln!(so, "{}", json!({"result": out.to_json()}));
+        let _ = writeln!(so, "{}", json!({"result": rj}));
         let _ = so.flush();
     }
 }
@@ -602,6 +607,13 @@ fn finish(prop: &dyn Prop, cfg: &RunCfg, agg: &mut Agg, n_units: usize, t0: Inst
 
     let wall = t0.elapsed().as_secs_f64();
     let exhaustive = !agg.capped && agg.machinery_errors.is_empty();
+    let slowest: Vec<J> = {
+        let mut v = agg.unit_ms.clone();
+        v.sort();
+        v.reverse();
+        v.truncate(5);
+        v.iter().map(|(ms, u)| json!({"unit": u, "ms": ms})).collect()
+    };
     let mut coverage = json!({
         "evaluations": agg.evaluations,
         "distinct_nontrivial": agg.nontrivial.len(),
@@ -613,6 +625,7 @@ fn finish(prop: &dyn Prop, cfg: &RunCfg, agg: &mut Agg, n_units: usize, t0: Inst
         "units_done": agg.units_done,
         "outcome_classes": agg.classes,
         "counters": agg.counters,
+        "slowest_units_ms": slowest,
         "known_findings_hit": known_hit.iter().map(|(k,(w,n))| json!({"match":k,"what":w,"cases":n})).collect::<Vec<_>>(),
         "notes": agg.notes.iter().collect::<Vec<_>>(),
     });
